@@ -299,14 +299,28 @@ def make_sys_run(cfg):
             attacker_done = S.CoopEvent()
             holding = [S.CoopEvent() for _ in range(cfg["size"])]
 
+            gate = S.CoopEvent()
+            targets.LogTarget.gate = gate if cfg.get("commtimeout") else None
+
+            def gate_opener():
+                attacker_done.wait()
+                gate.flag = True
+
             def holder(i):
                 def body():
                     try:
                         with client.Proxy("PYRO:obj@h:1") as p:
-                            r = p.token("hold-%d" % i)
-                            holding[i].flag = True
-                            attacker_done.wait()
-                            r2 = p.token("after-%d" % i)
+                            if cfg.get("commtimeout"):
+                                # with a communication timeout an idle connection would be dropped: the holder keeps its worker inside a method
+                                p._pyroTimeout = None
+                                holding[i].flag = True
+                                r = "hold-%d" % i
+                                r2 = "after-%d" % i if p.blocked("x") == "x" else "wrong"
+                            else:
+                                r = p.token("hold-%d" % i)
+                                holding[i].flag = True
+                                attacker_done.wait()
+                                r2 = p.token("after-%d" % i)
                         got["holders"].append((i, r, r2))
                     except S.AbortExecution:
                         raise
@@ -318,6 +332,8 @@ def make_sys_run(cfg):
             def attacker():
                 for h in holding:
                     h.wait()
+                if cfg.get("commtimeout"):
+                    w.sch.block(lambda: len(d.transportServer.pool.busy) >= cfg["size"] and len([e for e in tgt.log if e[0] == "blocked"]) >= cfg["size"], what="holders inside their methods")
                 silent = None
                 try:
                     if cfg.get("silent_peer_first"):
@@ -331,7 +347,9 @@ def make_sys_run(cfg):
                             sock.sendall(first_bytes())
                         except OSError as x:
                             got["error"] = "send:" + type(x).__name__
-                        sock.settimeout(3.0)
+                        # (virtual timeouts carry no durations: with a server-side timeout in play the judged peer waits without one of
+                        #  its own, so that only the daemon's can run out; a daemon that never answers then shows as a deadlock)
+                        sock.settimeout(None if cfg.get("commtimeout") else 3.0)
                         for _ in range(4):
                             try:
                                 m = protocol.recv_stub(conn)
@@ -354,6 +372,8 @@ def make_sys_run(cfg):
             for i in range(cfg["size"]):
                 w.client(holder(i), "holder-%d" % i)
             w.client(attacker, "attacker")
+            if cfg.get("commtimeout"):
+                w.client(gate_opener, "gate-opener")
             outcome = w.run()
 
             def V(fp, what):
@@ -391,6 +411,7 @@ def make_sys_run(cfg):
             obs = (first, outcome, tuple(types), got["eof"], got["error"], len(got["holders"]))
             return {"outcome": repr(obs), "violations": violations, "sample": {"cfg": cfg, "replies": types}}
         finally:
+            targets.LogTarget.gate = None
             w.close()
     return run_fn
 
@@ -404,8 +425,10 @@ def sys_configs(quick):
     for size in ((1,) if quick else (1, 2)):
         for first in SYS_FIRSTS:
             out.append({"first": first, "size": size, "p": 1 if (quick or size == 2) else 2, "r": 1, "horizon": 4000})
-    # (configurations with COMMTIMEOUT and a silent peer in front are not run: with a timeout the idle holders themselves are legitimately
-    #  timed out, so the pool is no longer full when the refusal is due - see DESIGN.md, sixth wave, C18-l)
+    # a communication timeout is configured, every worker is *inside a method*, and a peer that says nothing sits in front of the one judged
+    for first in ("connect-serpent", "ping"):
+        out.append({"first": first, "size": 1, "commtimeout": 2.0, "silent_peer_first": True, "p": 1, "r": 1, "horizon": 4000})
+        out.append({"first": first, "size": 1, "commtimeout": 2.0, "p": 1, "r": 1, "horizon": 4000})
     return out
 
 
